@@ -6,21 +6,27 @@
    ends (C18_fuel_*, C18_below_out_of_fuel); `rand`'s `fill` / `gen::<bool>` are modelled, not
    verified (see docs/notes/randsign.md). *)
 From BigNum Require Import Base BaseLemmas AddSub SpecAddSub AddSubProofs Sign SpecSign SignProofs
-  Rand SpecRand RandProofs Extracted InstAddSub.
+  Rand SpecRand RandProofs Extracted InstAddSub InstSign InstRand.
 Open Scope Z_scope.
+
+(* The theorems are proved generically in the source-extracted decision points of src/bigrand.rs and
+   instantiated here at `Extracted.rand` (inst/InstRand.v) — and at `Extracted.signs`, `Extracted.addsub`
+   for the sign helpers and the adder they call. *)
+Local Notation RP := Extracted.rand.
+Local Notation rok := rand_params_ok.
 
 (** gen_biguint(n) = the first ceil(n/32) words as little-endian base-2^32 digits with the top
     word shifted down by (32 - n mod 32) mod 32: a fixed, platform-independent function of the
     stream, canonical ([enc]), and below 2^n. *)
 Theorem C18_gen_biguint : forall n s, 0 <= n -> words s ->
-  gen_biguint n s = omap lift_u (spec_gen_biguint n s).
-Proof. intros; apply gen_biguint_spec; auto. Qed.
+  gen_biguint RP n s = omap lift_u (spec_gen_biguint n s).
+Proof. intros; apply gen_biguint_spec; auto using rok. Qed.
 Print Assumptions C18_gen_biguint.
 
 Theorem C18_gen_biguint_words : forall n ws rest, 0 <= n -> words ws -> words rest ->
   Z.of_nat (length ws) = nwords n ->
-  gen_biguint n (ws ++ rest) = Ret (enc (cand n ws), rest) /\ 0 <= cand n ws < 2 ^ n.
-Proof. intros; apply gen_biguint_words; auto. Qed.
+  gen_biguint RP n (ws ++ rest) = Ret (enc (cand n ws), rest) /\ 0 <= cand n ws < 2 ^ n.
+Proof. intros; apply gen_biguint_words; auto using rok. Qed.
 Print Assumptions C18_gen_biguint_words.
 
 Theorem C18_gen_biguint_bound : forall n s v r, 0 <= n -> words s ->
@@ -31,8 +37,8 @@ Print Assumptions C18_gen_biguint_bound.
 (** gen_bigint(n) lies in (-2^n, 2^n), is canonical, and is the first (magnitude, sign word)
     pair that is not a zero magnitude with a `true` sign word. *)
 Theorem C18_gen_bigint : forall n s, 0 <= n -> words s ->
-  gen_bigint n s = omap lift_i (spec_gen_bigint n s).
-Proof. intros; apply gen_bigint_spec; auto. Qed.
+  gen_bigint RP n s = omap lift_i (spec_gen_bigint n s).
+Proof. intros; apply gen_bigint_spec; auto using rok. Qed.
 Print Assumptions C18_gen_bigint.
 
 Theorem C18_gen_bigint_bound : forall n s v r, 0 <= n -> words s ->
@@ -43,16 +49,16 @@ Print Assumptions C18_gen_bigint_bound.
 Theorem C18_gen_bigint_first : forall n red acc w rest, 0 <= n ->
   Forall (redraw n) red -> chunk_ok n acc -> words (concat red ++ acc ++ w :: rest) ->
   (cand n acc <> 0 \/ Z.testbit w 31 = false) ->
-  gen_bigint n (concat red ++ acc ++ w :: rest)
+  gen_bigint RP n (concat red ++ acc ++ w :: rest)
   = Ret (ienc (if Z.testbit w 31 then cand n acc else - cand n acc), rest).
-Proof. intros; apply gen_bigint_first; auto. Qed.
+Proof. intros; apply gen_bigint_first; auto using rok. Qed.
 Print Assumptions C18_gen_bigint_first.
 
 (** gen_biguint_below(b): a zero bound panics; otherwise the result is the first candidate of
     bits(b) bits that is below b, hence < b and canonical. *)
 Theorem C18_below : forall bound s, canon bound -> words s ->
-  gen_biguint_below bound s = omap lift_u (spec_below (val bound) s).
-Proof. intros; apply gen_biguint_below_spec; auto. Qed.
+  gen_biguint_below RP bound s = omap lift_u (spec_below (val bound) s).
+Proof. intros; apply gen_biguint_below_spec; auto using rok. Qed.
 Print Assumptions C18_below.
 
 Theorem C18_below_bound : forall bound s c r, words s ->
@@ -64,8 +70,8 @@ Theorem C18_below_first : forall bound rej acc rest, canon bound -> bound <> [] 
   let bits := Z.log2 (val bound) + 1 in
   Forall (fun c => chunk_ok bits c /\ words c /\ val bound <= cand bits c) rej ->
   chunk_ok bits acc -> words acc -> cand bits acc < val bound -> words rest ->
-  gen_biguint_below bound (concat rej ++ acc ++ rest) = Ret (enc (cand bits acc), rest).
-Proof. intros; apply below_first; auto. Qed.
+  gen_biguint_below RP bound (concat rej ++ acc ++ rest) = Ret (enc (cand bits acc), rest).
+Proof. intros; apply below_first; auto using rok. Qed.
 Print Assumptions C18_below_first.
 
 Theorem C18_below_panic : forall bound s k,
@@ -90,34 +96,34 @@ Print Assumptions C18_below_uniform.
 (** Ranges: [low, high) — and [low, high] for the inclusive constructor — canonical results;
     empty or inverted ranges panic, nothing else does. *)
 Theorem C18_biguint_range : forall lo hi s, canon lo -> canon hi -> words s ->
-  gen_biguint_range addsub lo hi s = omap lift_u (spec_range (val lo) (val hi) s).
-Proof. intros; apply gen_biguint_range_spec; auto using addsub_params_ok. Qed.
+  gen_biguint_range RP addsub lo hi s = omap lift_u (spec_range (val lo) (val hi) s).
+Proof. intros; apply gen_biguint_range_spec; auto using addsub_params_ok, rok. Qed.
 Print Assumptions C18_biguint_range.
 
 Theorem C18_bigint_range : forall lo hi s, icanon lo -> icanon hi -> words s ->
-  gen_bigint_range addsub lo hi s = omap lift_i (spec_range (ival lo) (ival hi) s).
-Proof. intros; apply gen_bigint_range_spec; auto using addsub_params_ok. Qed.
+  gen_bigint_range RP Extracted.signs addsub lo hi s = omap lift_i (spec_range (ival lo) (ival hi) s).
+Proof. intros; apply gen_bigint_range_spec; auto using addsub_params_ok, sign_params_ok, rok. Qed.
 Print Assumptions C18_bigint_range.
 
 Theorem C18_uniform_biguint : forall lo hi s, canon lo -> canon hi -> words s ->
-  (do u <- uu_new addsub lo hi; uu_sample addsub u s) = omap lift_u (spec_range (val lo) (val hi) s) /\
-  (do u <- uu_new_inclusive addsub lo hi; uu_sample addsub u s)
+  (do u <- uu_new RP addsub lo hi; uu_sample RP addsub u s) = omap lift_u (spec_range (val lo) (val hi) s) /\
+  (do u <- uu_new_inclusive RP addsub lo hi; uu_sample RP addsub u s)
     = omap lift_u (spec_range_inclusive (val lo) (val hi) s) /\
-  uu_sample_single addsub lo hi s = omap lift_u (spec_range (val lo) (val hi) s).
+  uu_sample_single RP addsub lo hi s = omap lift_u (spec_range (val lo) (val hi) s).
 Proof.
   intros; split; [apply uu_new_sample_spec|split; [apply uu_new_inclusive_sample_spec|
-    apply gen_biguint_range_spec]]; auto using addsub_params_ok.
+    apply gen_biguint_range_spec]]; auto using addsub_params_ok, rok.
 Qed.
 Print Assumptions C18_uniform_biguint.
 
 Theorem C18_uniform_bigint : forall lo hi s, icanon lo -> icanon hi -> words s ->
-  (do u <- ui_new addsub lo hi; ui_sample addsub u s) = omap lift_i (spec_range (ival lo) (ival hi) s) /\
-  (do u <- ui_new_inclusive addsub lo hi; ui_sample addsub u s)
+  (do u <- ui_new RP Extracted.signs addsub lo hi; ui_sample RP Extracted.signs addsub u s) = omap lift_i (spec_range (ival lo) (ival hi) s) /\
+  (do u <- ui_new_inclusive RP Extracted.signs addsub lo hi; ui_sample RP Extracted.signs addsub u s)
     = omap lift_i (spec_range_inclusive (ival lo) (ival hi) s) /\
-  ui_sample_single addsub lo hi s = omap lift_i (spec_range (ival lo) (ival hi) s).
+  ui_sample_single RP Extracted.signs addsub lo hi s = omap lift_i (spec_range (ival lo) (ival hi) s).
 Proof.
   intros; split; [apply ui_new_sample_spec|split; [apply ui_new_inclusive_sample_spec|
-    apply gen_bigint_range_spec]]; auto using addsub_params_ok.
+    apply gen_bigint_range_spec]]; auto using addsub_params_ok, sign_params_ok, rok.
 Qed.
 Print Assumptions C18_uniform_bigint.
 
@@ -138,7 +144,7 @@ Print Assumptions C18_range_panic.
 
 (** RandomBits matches gen_biguint / gen_bigint. *)
 Theorem C18_random_bits : forall n s,
-  random_bits_u n s = gen_biguint n s /\ random_bits_i n s = gen_bigint n s.
+  random_bits_u RP n s = gen_biguint RP n s /\ random_bits_i RP n s = gen_bigint RP n s.
 Proof. intros; split; reflexivity. Qed.
 Print Assumptions C18_random_bits.
 
@@ -169,12 +175,12 @@ Print Assumptions C18_below_out_of_fuel.
    zero-crossing BigInt range, and an empty range. *)
 Example C18_nonvacuous :
   wordsb [1; 2; 4294967295; 9] = true /\
-  gen_biguint 70 [1; 2; 4294967295; 9] = Ret ([1 + 4294967296 * 2; 63], [9]) /\
+  gen_biguint RP 70 [1; 2; 4294967295; 9] = Ret ([1 + 4294967296 * 2; 63], [9]) /\
   canonb [0; 5] = true /\
-  gen_biguint_below [0; 5] [0; 0; 2684354560; 4294967295; 4294967295; 4294967295;
+  gen_biguint_below RP [0; 5] [0; 0; 2684354560; 4294967295; 4294967295; 4294967295;
                             4294967295; 4294967295; 2147483648; 7]
     = Ret ([B - 1; 4], [7]) /\
-  gen_bigint_range addsub (mkint Minus [3]) (mkint Plus [2]) [7 * 536870912; 4 * 536870912; 11]
+  gen_bigint_range RP Extracted.signs addsub (mkint Minus [3]) (mkint Plus [2]) [7 * 536870912; 4 * 536870912; 11]
     = Ret (mkint Plus [1], [11]) /\
-  gen_biguint_range addsub [5] [5] [1; 2] = Panic EmptyRange.
+  gen_biguint_range RP addsub [5] [5] [1; 2] = Panic EmptyRange.
 Proof. repeat split; vm_compute; reflexivity. Qed.
